@@ -273,6 +273,42 @@ fn c13_oracle(r: &TrafficRun, obs: &mut Obs) -> CaseResult {
                     }
                 }
             }
+            // 'it may always perform one message cycle per token visit': a station with an application
+            // that never declines sends at least one request between two of its token passes
+            {
+                let b = r.sim.bus.0.borrow();
+                let from_ns = (c + 2 * rot + ttr_us) * 1000;
+                // a repeated pass (ring of several stations) means the ring was not stable: nothing judged
+                let mut retried = false;
+                let mut passes: Vec<Vec<i64>> = vec![vec![]; n];
+                let mut last_own: Vec<Option<Vec<u8>>> = vec![None; n];
+                for q in b.trace.iter() {
+                    let x = q.sender;
+                    if x >= n {
+                        continue;
+                    }
+                    if q.bytes.first() == Some(&rc::SD4) && q.start_ns > from_ns {
+                        if n > 1 && last_own[x].as_deref() == Some(&q.bytes[..]) {
+                            retried = true;
+                        }
+                        passes[x].push(q.start_ns / 1000);
+                    }
+                    last_own[x] = Some(q.bytes.clone());
+                }
+                if !retried {
+                    for x in 0..n {
+                        let hungry = r.specs[x].iter().any(|s| s.burst == u32::MAX && !s.targets.is_empty());
+                        if !hungry {
+                            continue;
+                        }
+                        let sends: Vec<i64> = log.iter().filter_map(|cb| match cb { Cb::Tx { t, station, sent: Some(_), .. } if *station == x => Some(*t), _ => None }).collect();
+                        for w in passes[x].windows(2) {
+                            let any = sends.iter().any(|t| *t > w[0] && *t <= w[1]);
+                            ensure!(any, "no-cycle-in-visit", "station #{} has an application that never declines but performed no message cycle during the token visit between its passes at {} us and {} us (TTR {} bit)", r.sim.nodes[x].addr, w[0], w[1], r.cfg.ttr_bits);
+                        }
+                    }
+                }
+            }
             obs.label("rotation-bound-judged");
         } else {
             obs.label("late-peer-deadline-rule-only");
@@ -308,6 +344,81 @@ fn possession(r: &TrafficRun, x: usize, addr: u8) -> Vec<(i64, bool)> {
         }
     }
     v
+}
+
+/// 'The token is passed once every application has declined once or the hold time is over' read
+/// the other way round: a token pass that happens clearly before the hold time is over (the GAP
+/// reserve of Tslot + 100 bit deducted) comes after every application has been asked and has
+/// declined in that visit.  Judged for stations with several applications in runs whose peers all
+/// conform (no late replies, no token telegrams from peers) and in which no pass had to be repeated.
+fn early_pass_clause(r: &TrafficRun, obs: &mut Obs) -> CaseResult {
+    if r.peers.values().any(|(k, _)| matches!(k, PeerKind::Late | PeerKind::TokenReply | PeerKind::RequestInstead | PeerKind::ForeignSource | PeerKind::ForeignDest)) {
+        return Ok(());
+    }
+    let Some(c) = r.converged_at else { return Ok(()) };
+    let n = r.sim.nodes.len();
+    let log = r.log.borrow();
+    let b = r.sim.bus.0.borrow();
+    let ttr_us = r.cfg.baud.bits_to_time(r.cfg.ttr_bits).total_micros() as i64;
+    let reserve = r.cfg.bits_us(u64::from(r.cfg.slot_bits) + 100 + 33);
+    let pmax = r.cfg.stations.iter().map(|s| s.period_us).max().unwrap_or(1);
+    let rec = receipts(r);
+    let mut judged = 0u64;
+    for x in 0..n {
+        let napps = r.specs[x].len();
+        if napps < 2 {
+            continue;
+        }
+        // own passes; a repeated pass means the ring was not stable
+        let mut passes: Vec<i64> = vec![];
+        let mut last_own: Option<&[u8]> = None;
+        let mut retried = false;
+        for q in b.trace.iter().filter(|q| q.sender == x) {
+            if q.bytes.first() == Some(&rc::SD4) {
+                if n > 1 && last_own == Some(&q.bytes[..]) {
+                    retried = true;
+                }
+                passes.push(q.start_ns / 1000);
+            }
+            last_own = Some(&q.bytes[..]);
+        }
+        // a token claimed anew in a ring of several (token to itself after the ring has formed): not stable
+        let addr = r.sim.nodes[x].addr;
+        let reclaimed = n > 1 && b.trace.iter().any(|q| q.sender == x && q.start_ns / 1000 > c && q.bytes == [rc::SD4, addr, addr]);
+        if retried || reclaimed {
+            continue;
+        }
+        // visit i: first receipt after pass i-1 .. pass i; its deadline counts from the receipt of visit i-1.
+        // The first passes are the claim (two tokens to itself, the scan, the first visit whose hold time
+        // counts from nothing) and are not judged.
+        let first_receipt_after = |t: i64| rec[x].iter().copied().find(|r| *r >= t);
+        for i in 6..passes.len() {
+            let (Some(r_prev), Some(r_cur)) = (first_receipt_after(passes[i - 2]), first_receipt_after(passes[i - 1])) else { continue };
+            if r_prev >= passes[i - 1] || r_cur >= passes[i] || r_prev < c {
+                continue;
+            }
+            let deadline = r_prev + ttr_us;
+            if passes[i] + reserve + 3 * pmax >= deadline {
+                continue; // the hold time was (nearly) over
+            }
+            judged += 1;
+            for app in 0..napps {
+                let declined = log.iter().any(|cb| matches!(cb, Cb::Tx { t, station, app: a, sent: None, .. } if *station == x && *a == app && *t >= r_cur && *t <= passes[i]));
+                if !declined && std::env::var("PBVERIF_DUMP").is_ok() {
+                    for cb in log.iter().filter(|cb| cb.station() == x && cb.t() >= r_prev - 90000 && cb.t() <= passes[i] + 100) {
+                        eprintln!("  {:?}", cb);
+                    }
+                    for q in b.trace.iter().filter(|q| q.start_ns / 1000 >= r_prev - 90000 && q.start_ns / 1000 <= passes[i] + 100) {
+                        eprintln!("  {} us node{} {}", q.start_ns / 1000, q.sender, crate::props::c09::hex(&q.bytes));
+                    }
+                    eprintln!("  specs {:?}", r.specs[x]);
+                }
+                ensure!(declined, "pass-before-everybody-declined", "station #{} passed the token at {} us, {} us before its hold time was over (previous receipt {} us + TTR {} us), although application {} of {} had not declined in this visit (token received at {} us)", r.sim.nodes[x].addr, passes[i], deadline - passes[i], r_prev, ttr_us, app, napps, r_cur);
+            }
+        }
+    }
+    obs.count("early_passes_judged", judged);
+    Ok(())
 }
 
 fn c15_oracle(r: &TrafficRun, obs: &mut Obs) -> CaseResult {
@@ -419,6 +530,9 @@ fn c15_oracle(r: &TrafficRun, obs: &mut Obs) -> CaseResult {
             }
         }
     }
+    drop(b);
+    drop(log);
+    early_pass_clause(r, obs)?;
     obs.count("replies", replies);
     obs.count("timeouts", timeouts);
     obs.count("declines", declines);
